@@ -285,7 +285,28 @@ def r7_traversal_order(chk: Check) -> None:
     wraps = phas("$s = {'anyOf': [$s, {'type': 'null'}]}", tjs.node)
     chk.note("to_json_schema wraps nullable schemas before stripping (relies on being re-applied to the wrapped node)" if wraps else "to_json_schema: nullable wrapper shape not recognised")
     rec_entry = P.func(f"{CONV}:to_json_schema_recursive")
-    chk.decide(any(last_attr(c) == "transform" and len(c.args) >= 2 and dotted(c.args[1]) == "to_json_schema" for c in body_calls(rec_entry)), "C01.R7", rec_entry, "to_json_schema_recursive = transform(schema, to_json_schema, ...)", "the recursive conversion no longer goes through transform", rec_entry.loc())
+    uses_transform = any(last_attr(c) == "transform" and len(c.args) >= 2 and dotted(c.args[1]) == "to_json_schema" for c in body_calls(rec_entry))
+    construct = "to_json_schema_recursive = transform(schema, to_json_schema, ...)"
+    if uses_transform:
+        chk.ok("C01.R7", rec_entry, construct, "", rec_entry.loc())
+    else:
+        # a home-grown walker: the one thing that can be decided is whether it confuses the two kinds of JSON Schema
+        # keywords - maps of name -> schema (properties, patternProperties, definitions, dependencies) versus keywords
+        # whose value IS a schema (additionalProperties, items, not, contains, propertyNames, if/then/else)
+        MAPS = {"properties", "patternProperties", "definitions", "$defs", "dependencies", "dependentSchemas"}
+        SINGLE = {"additionalProperties", "additionalItems", "items", "not", "contains", "propertyNames", "if", "then", "else", "unevaluatedProperties", "unevaluatedItems"}
+        mixed = None
+        for lit in ast.walk(rec_entry.module.tree):
+            if isinstance(lit, (ast.Set, ast.Tuple, ast.List)):
+                vals = {const_str(e) for e in lit.elts}
+                if vals & MAPS and vals & SINGLE:
+                    mixed = (lit, sorted(vals & SINGLE))
+        if mixed is not None:
+            chk.violation("C01.R7", rec_entry, construct,
+                          f"the conversion no longer uses transform(); its replacement treats {mixed[1]} like `properties`, i.e. as a map of name -> schema, although the value of such a keyword IS a schema: that schema is never passed to to_json_schema itself, so its readOnly properties are not stripped (they are sent), its nullable / file markers are not converted",
+                          rec_entry.loc(mixed[0]))
+        else:
+            chk.undecided("C01.R7", rec_entry, construct, "the recursive conversion no longer goes through transform(); the replacement walker is not analysed", rec_entry.loc())
 
 
 def rfwd_forwarding(chk: Check) -> None:
